@@ -2,7 +2,8 @@
 import ast
 
 from sa.loader import AnalysisError, norm, walk_local
-from .common import analysis, names_in, str_consts_compared, isinstance_types
+from sa.cfg import cfg_of
+from .common import analysis, names_in, str_consts_compared, isinstance_types, true_facts
 from . import c17
 
 PROP = "C15"
@@ -126,7 +127,9 @@ def run(ctx):
     ok = any(isinstance(c, ast.Call) and norm(c.func) == "RecordStart" and any(k.arg == "default" for k in c.keywords) for c in ast.walk(pr.node)) and any(isinstance(c, ast.Call) and norm(c.func) == "self._parse" and "field.get('default', NO_DEFAULT)" in norm(c) for c in ast.walk(pr.node))
     ctx.check("C15.R5", "_process_record: RecordStart carries the record default, fields are compiled with field.get('default', NO_DEFAULT)", ok, pr.where(), "Parser._process_record", "field defaults do not reach the grammar")
     rv = decJ.methods["read_value"]
-    ok = any(isinstance(n, ast.Return) and norm(n.value) == "symbol.get_default()" for n in walk_local(rv.node)) and any(isinstance(n, ast.If) and "not in self._current" in norm(n.test) for n in walk_local(rv.node))
+    rcfg = cfg_of(rv)
+    symp = rv.pos_params[1]
+    ok = any(isinstance(n, ast.Return) and n.value is not None and norm(n.value) == f"{symp}.get_default()" and any(fct.endswith("not in self._current") for fct in true_facts(rcfg, rcfg.node_of(n))) for n in walk_local(rv.node))
     ctx.check("C15.R5", "decoder: a key absent from the JSON object takes symbol.get_default()", ok, rv.where(), "AvroJSONDecoder.read_value", "absent fields do not take their schema defaults")
 
     # ---- R6 union wrapping ------------------------------------------------------------------------------------
